@@ -5601,7 +5601,10 @@ def merge_parts(parts, reassign="voice"):
     # find the maximum number of voices for each part (voice numbers start from 1)
     maximum_voices = [max(unique_voice, default=1) for unique_voice in unique_voices]
     # find the maximum number of staves for each part
-    maximum_staves = [max(unique_staff, default=1) for unique_staff in unique_staves]
+    # (a missing staff counts as staff 1)
+    maximum_staves = [
+        max(max(unique_staff, default=1), 1) for unique_staff in unique_staves
+    ]
 
     if reassign in ["staff", "auto"]:
         el_to_discard = (
@@ -5692,7 +5695,10 @@ def merge_parts(parts, reassign="voice"):
                         # new voice is computed as the sum of voices in staves in previous parts, plus the current
                         e.voice = voice_mapping[e.voice]
                     if isinstance(e, (GenericNote, Words, Direction, Clef)):
-                        e.staff = staff_mapping[e.staff]
+                        e.staff = staff_mapping.get(
+                            e.staff if e.staff is not None else 0,
+                            n_previous_staves + 1,
+                        )
                 new_part.add(e, start=new_start, end=new_end)
 
                 # new_part.add(copy.deepcopy(e), start=new_start, end=new_end)
